@@ -7,18 +7,19 @@
 
     Compact literals: identifiers of consecutive children are consecutive, so
     reference lists and observed address lists are run-length encoded
-    ([Run a k n dk] = n references (a,k), (a+1,k+dk), ...). *)
+    ([Run a k n da dk] = n references (a,k), (a+da,k+dk), ...; da, dk in {0,1}). *)
 From Coq Require Import List NArith ZArith Bool.
 Import ListNotations.
 Require Import Aurora.Base.Corr Aurora.Consts.
 Require Export Aurora.C09.Model.
+Require Aurora.C09.Mantaray.
 Local Open Scope N_scope.
 
-Inductive run := Run (a k n dk : N).
-Fixpoint expand_run (a k dk : N) (n : nat) : list ref :=
-  match n with O => [] | S n' => mkRef a k :: expand_run (a + 1) (k + dk) dk n' end.
+Inductive run := Run (a k n da dk : N).
+Fixpoint expand_run (a k da dk : N) (n : nat) : list ref :=
+  match n with O => [] | S n' => mkRef a k :: expand_run (a + da) (k + dk) da dk n' end.
 Definition expand (rs : list run) : list ref :=
-  flat_map (fun r => match r with Run a k n dk => expand_run a k dk (N.to_nat n) end) rs.
+  flat_map (fun r => match r with Run a k n da dk => expand_run a k da dk (N.to_nat n) end) rs.
 Definition expand_addrs (rs : list run) : list N := map raddr (expand rs).
 
 (** one store entry: reference (a,k) -> span, payload length, references *)
@@ -38,8 +39,13 @@ Inductive case :=
 | CIter (enc : bool) (ra rk : N) (st : list ent) (trav data edge : obs)
     (* joiner.New + IterateChunkAddresses (+SetSaveDataChunks, +SetSaveEdgeChunks: key set, sorted)
        directly, fabricated two-level trees *)
-| CMan (enc : bool) (m : mn) (st : list ent) (trav pyr : obs).
+| CMan (enc : bool) (m : mn) (st : list ent) (trav pyr : obs)
     (* Traverse / GetPyramid of a manifest reference; both sorted (Go map order), pyr distinct *)
+| CLoad (tbl : list (list N * N)) (payloads : list (list N * list N)) (root : list N) (m : mn).
+    (* the real node payloads (reference bytes -> bytes read back through loadsave) and the
+       trie mantaray.WalkNode presented (forks in ascending byte order): the model's
+       [Mantaray.load_trie] (C10's byte-level decoder + the walk) must load the same trie;
+       [tbl] maps reference bytes to the identifiers used in [m] *)
 
 Definition params_of (enc : bool) : params :=
   mkParams Consts.boson_ChunkSize (if enc then Consts.encryption_ReferenceSize else Consts.boson_HashSize).
@@ -90,12 +96,14 @@ Definition model_out (c : case) : list out :=
   | CMan enc m st _ _ =>
       let p := params_of enc in let s := mk_store st in
       [out_of_lres sortN (traverse_manifest p s (mnode_of m)); out_of_lres sort_dedup (pyramid_manifest p s (mnode_of m))]
+  | CLoad _ _ _ _ => []
   end.
 Definition obs_out (c : case) : list out :=
   match c with
   | CFile _ _ _ _ t d y => [out_of_obs t; out_of_obs d; out_of_obs y]
   | CIter _ _ _ _ t d e => [out_of_obs t; out_of_obs d; out_of_obs e]
   | CMan _ _ _ t y => [out_of_obs t; out_of_obs y]
+  | CLoad _ _ _ _ => []
   end.
 
 (** For real uploads the store content is also read back as a [tree] and
@@ -136,11 +144,40 @@ Definition shape_ok (c : case) : bool :=
   | _ => true
   end.
 
-Definition check_case (c : case) : bool := list_eqb out_eqb (model_out c) (obs_out c) && shape_ok c.
+Definition rid_of (tbl : list (list N * N)) (b : list N) : ref :=
+  mkRef (match find (fun kv => bytes_eqb (fst kv) b) tbl with Some kv => snd kv | None => 0 end) 0.
+Definition entry_eqb (a b : entry) : bool :=
+  match a, b with
+  | ENone, ENone | EZero, EZero => true
+  | ERef x, ERef y => ref_eqb x y
+  | _, _ => false
+  end.
+Fixpoint mnode_eqb (a b : mnode) : bool :=
+  match a, b with
+  | MNode s1 v1 e1 f1, MNode s2 v2 e2 f2 =>
+      option_eqb ref_eqb s1 s2 && Bool.eqb v1 v2 && entry_eqb e1 e2 &&
+      (fix go (x y : list mnode) : bool :=
+         match x, y with
+         | [], [] => true
+         | m1 :: x', m2 :: y' => mnode_eqb m1 m2 && go x' y'
+         | _, _ => false
+         end) f1 f2
+  end.
+Definition load_ok (c : case) : bool :=
+  match c with
+  | CLoad tbl payloads root m =>
+      match Aurora.C09.Mantaray.load_trie (rid_of tbl) 64 payloads (Aurora.C10.Model.node_ref (Some root)) with
+      | Aurora.C10.Model.Ok lm => mnode_eqb lm (mnode_of m)
+      | Aurora.C10.Model.Err _ => false
+      end
+  | _ => true
+  end.
+
+Definition check_case (c : case) : bool := list_eqb out_eqb (model_out c) (obs_out c) && shape_ok c && load_ok c.
 
 (** on mismatch: per call, (model, observed) shortened to the first 12 addresses and the length *)
 Definition brief (o : out) : option (list N * nat) :=
   match o with VOk l => Some (firstn 12 l, length l) | _ => None end.
 Definition explain_case (c : case) :=
   (map brief (model_out c), map brief (obs_out c),
-   map (fun o => match o with VNotFound => 1 | VOther => 2 | VOk _ => 0 end) (model_out c), shape_ok c).
+   map (fun o => match o with VNotFound => 1 | VOther => 2 | VOk _ => 0 end) (model_out c), shape_ok c, load_ok c).
